@@ -25,7 +25,7 @@ META = {
                     "class:weighted_stddev", "class:weighted_quantile", "class:weighted_covariance", "class:datetime",
                     "class:cols", "class:ndims=0", "class:propagate", "class:ignore", "wq:rescale_checked",
                     "class:large_offset_small_spread", "metamorphic:zero_dim_vs_one_cell", "class:zero_weights_in_metamorphic_check",
-                    "class:one_dimension_129+_categories"]
+                    "class:one_dimension_129+_categories", "class:facts_on_a_very_small_or_large_scale", "class:integer_facts_beyond_2^53"]
                 for t in ("quick", "thorough")},
     "assumptions": [
         "correlation entries with a zero-variance column or < 2 rows, and covariance entries of cells with < 2 (complete) "
@@ -167,10 +167,15 @@ def judge(ctx, case):
     v2 = oracles.conform(numpy.asarray(res2[0]), full)
     ok2 = oracles.conform(numpy.asarray(res2[1]), full)
     lib_missing = numpy.isnat(r) if is_dt else numpy.isnan(r.astype(float))
+    # facts given on another scale (a power of two, exact): magnitudes are measured in the original units and the
+    # tolerances scale with the statistic (linearly; quadratically for a covariance)
+    sc = float(f.get("scale", 1.0))
+    if sc != 1.0:
+        ctx.count("class:facts_on_a_very_small_or_large_scale")
     if is_dt or not x.size or not xv.any():
         mag = spread = 1.0
     else:
-        xf = numpy.nan_to_num(x.astype(float), posinf=0, neginf=0)[xv]
+        xf = numpy.nan_to_num(x.astype(float), posinf=0, neginf=0)[xv] / sc
         mag = max(1.0, float(numpy.abs(xf).max()))
         spread = max(1.0, float(xf.max() - xf.min()))
     # two-pass formulas: the error scales with the spread of the data, plus a few ulps of its magnitude
@@ -180,6 +185,7 @@ def judge(ctx, case):
         tol = 1e-9 * spread + 1e-12 * mag
     else:
         tol = 1e-9 * mag
+    tol *= sc * sc if agg == "covariance" else (1.0 if agg == "corrcoef" else sc)
     if f.get("offset"):
         ctx.count("class:large_offset_small_spread")
     nontrivial = False
@@ -196,6 +202,9 @@ def judge(ctx, case):
         ctx.violation("formats-values-differ:" + feat, "NaN format and (values, validity) format give different values", case)
         return
 
+    int_fact = agg in ("min", "max") and x.dtype.kind in "iu"
+    if f.get("huge_int"):
+        ctx.count("class:integer_facts_beyond_2^53")
     for pos in oracles.scaffold_positions(dense):
         spos = tuple(i for p in pos for i in p)
         cols = oracles.columns_at(dense, pos)
@@ -245,6 +254,13 @@ def judge(ctx, case):
                         okv = abs(float(r[idx]) - float(ev)) <= tol
                     if nv >= 2 and not is_dt and float(ev) != 0:
                         nontrivial = True
+                    if okv and int_fact and int(v2[idx]) != int(ev):
+                        # an integer fact's minimum / maximum is one of its values: the (values, validity) format,
+                        # which needs no NaN, must give it exactly
+                        ctx.violation("value:(values,validity)-format-inexact:" + feat,
+                                      "cell %r: %s of an integer fact is %r in the (values, validity) format (dtype %s), textbook %r"
+                                      % (idx, agg, v2[idx], v2.dtype, int(ev)), case)
+                        return
                     if not okv:
                         ctx.violation("value:" + feat, "cell %r (%d valid rows): library %r, textbook %r" % (idx, nv, r[idx], ev), case)
                         return
